@@ -385,8 +385,18 @@ fn get_targets_root_only(
             .ancestors()
             .find(|dir| dir.join("Cargo.toml").is_file())
             .unwrap_or(&current_dir);
+        // A directory of a virtual workspace that belongs to no member (`ws/docs`): the nearest
+        // manifest is the workspace's own, which belongs to no package -- as from the
+        // workspace's directory, its members are what is meant.
+        let in_virtual_workspace = manifest_dir == workspace_root_path
+            && !metadata.packages.iter().any(|p| {
+                PathBuf::from(&p.manifest_path)
+                    .canonicalize()
+                    .unwrap_or_default()
+                    == manifest_dir.join("Cargo.toml")
+            });
         (
-            workspace_root_path == current_dir,
+            workspace_root_path == current_dir || in_virtual_workspace,
             manifest_dir.join("Cargo.toml"),
         )
     };
